@@ -31,7 +31,12 @@ struct St {
     trace: Vec<u8>,
     switches_inside_op: u64,
     in_op: Vec<bool>,
+    /// set once the step budget is exhausted: every thread unwinds at its next scheduling point
+    abort: bool,
 }
+
+/// panic payload that ends a thread stuck in a lock acquisition after a no-progress verdict
+struct SchedAbort;
 
 struct Sched {
     m: Mutex<St>,
@@ -40,7 +45,7 @@ struct Sched {
 
 impl Sched {
     fn new(n: usize) -> Arc<Self> {
-        Arc::new(Sched { m: Mutex::new(St { parked: vec![false; n], done: vec![false; n], grant: None, seq: 0, trace: vec![], switches_inside_op: 0, in_op: vec![false; n] }), cv: Condvar::new() })
+        Arc::new(Sched { m: Mutex::new(St { parked: vec![false; n], done: vec![false; n], grant: None, seq: 0, trace: vec![], switches_inside_op: 0, in_op: vec![false; n], abort: false }), cv: Condvar::new() })
     }
     /// park until the scheduler picks this thread
     fn yield_point(&self, tid: usize) {
@@ -53,6 +58,10 @@ impl Sched {
         s.grant = None;
         s.parked[tid] = false;
         self.cv.notify_all();
+        if s.abort {
+            drop(s);
+            std::panic::panic_any(SchedAbort);
+        }
     }
     fn stamp(&self) -> u64 {
         let mut s = self.m.lock().unwrap();
@@ -262,7 +271,9 @@ fn run_generic<S: mdk_storage_traits::MdkStorageProvider + Send + Sync + 'static
                 match res {
                     Ok(v) => history.lock().unwrap().push(HEvent { tid, op, invoke, ret, result: v.to_string() }),
                     Err(p) => {
-                        panics.lock().unwrap().push(format!("thread {tid} {op:?}: {}", seam::panic_msg(&p)));
+                        if p.downcast_ref::<SchedAbort>().is_none() {
+                            panics.lock().unwrap().push(format!("thread {tid} {op:?}: {}", seam::panic_msg(&p)));
+                        }
                         break;
                     }
                 }
@@ -273,7 +284,9 @@ fn run_generic<S: mdk_storage_traits::MdkStorageProvider + Send + Sync + 'static
     }
     let progressed = sched.drive(&mut r, 20_000);
     if !progressed {
-        // unblock everything: grant in a loop until all done
+        // no thread can finish (deadlock / livelock): make every thread unwind at its next
+        // scheduling point, granting them in turn until all are done
+        sched.m.lock().unwrap().abort = true;
         for _ in 0..200_000 {
             let mut s = sched.m.lock().unwrap();
             let live: Vec<usize> = (0..s.parked.len()).filter(|i| !s.done[*i]).collect();
